@@ -235,7 +235,7 @@ namespace plan
       for (int i = 0, n = static_cast<int>(sw.range(1, 3)); i < n; ++i)
         ops.push_back(g_op(g, "class"));
       if (sw.chance(1, 2))
-        for (int i = 0, n = static_cast<int>(sw.range(1, 2)); i < n; ++i)
+        for (int i = 0, n = static_cast<int>(sw.range(1, 3)); i < n; ++i)
           ops.push_back(g_op(g, "enumt"));
     }
     bool class_preds = false;
